@@ -2639,6 +2639,7 @@ class TextQueryBackend(Backend):
                     for alias in aliases
                     for alias_rule_reference, field in alias.mapping.items()
                     if alias_rule_reference == rule_reference
+                    or getattr(alias_rule_reference, "rule", None) is rule_reference.rule
                 )
             )
 
